@@ -267,6 +267,7 @@ def gnuLoop (t : SymTab) (data : Option Bytes) (name : Bytes) (hash symoffset : 
     (chainsBase : Nat) : Nat → BitVec 32 → BitVec 32 → Bytes → Attrs → M (Bool × Attrs)
   | 0, _, _, _, _ => throw (.fuel "gnu_hash_lookup")
   | k + 1, ci, ch, sn, a =>
+    if !(if t.c32 then gnu32_loop_forever else gnu64_loop_forever) then pure (false, a) else
     let hm := if t.c32 then gnu32_hash_match ch hash else gnu64_hash_match ch hash
     (if hm then t.getSymbol (if t.c32 then gnu32_sym_index ci symoffset else gnu64_sym_index ci symoffset) sn a
      else pure (false, sn, a)) >>= fun r =>
